@@ -9,7 +9,8 @@ CONSTANTS Depth,      \* number of steps of a history
           Delays,     \* delays given to call_out at top level
           Spacings,   \* seconds per tick step
           Scripts,    \* what a callback does when it fires
-          MaxSched    \* at most this many top-level call_outs per history
+          MaxSched,   \* at most this many top-level call_outs per history
+          Sim         \* TRUE under -simulate: one random successor per step
 
 VARIABLES hist, nsched
 vars == <<hist, nsched>>
@@ -23,6 +24,8 @@ Step ==
   \cup [a : {"rmn", "fdn"}, ob : {"o1"}, fn : {"A"}]
   \cup [a : {"dest"}, ob : {"o2"}]
 
+Pick(S) == IF Sim THEN (IF S = {} THEN {} ELSE {RandomElement(S)}) ELSE S
+
 Init == hist = <<>> /\ nsched = 0
 
 Ok(s) ==
@@ -32,10 +35,12 @@ Ok(s) ==
   /\ s.a = "tick" => (s.join => Len(hist) > 0 /\ hist[Len(hist)].a # "tick")
   /\ Len(hist) = 0 => s.a = "co"
 
-Next == /\ Len(hist) < Depth
-        /\ \E s \in Step : /\ Ok(s)
-                          /\ hist' = Append(hist, s)
-                          /\ nsched' = IF s.a = "co" THEN nsched + 1 ELSE nsched
+Next == \/ Len(hist) >= Depth /\ UNCHANGED vars      \* keeps -simulate traces alive to their depth
+        \/ /\ Len(hist) < Depth
+           /\ \E s \in Pick({x \in Step : Ok(x)}) :
+                             /\ TRUE
+                             /\ hist' = Append(hist, s)
+                             /\ nsched' = IF s.a = "co" THEN nsched + 1 ELSE nsched
 
 Spec == Init /\ [][Next]_vars
 
